@@ -47,25 +47,40 @@ theorem normalV_patch (v : Val) (h : normalV v = true) : patch v = v := normal_p
 
 /-! ### `$match` -/
 
-theorem match_eq_spec (f : Val) (hf : patch f = f) : ∀ (docs s : List Val),
-    (∀ d ∈ docs, patch d = d ∧ Spec.inD f d = true) → specMatch f docs = some s →
-    matchStage f docs = .ok s
-  | [], s, _, h => by simp [specMatch] at h; subst h; rfl
+theorem matchAll_eq_spec (f : Val) (hf : patch f = f) : ∀ (docs s : List Val),
+    (∀ d ∈ docs, patch d = d ∧ Spec.inD f d = true) → specMatchAll f docs = some s →
+    filterR (fun d => filterApplies (patch f) (patch d)) docs = .ok s
+  | [], s, _, h => by simp [specMatchAll] at h; subst h; rfl
   | d :: ds, s, hD, h => by
-    simp only [specMatch] at h
+    simp only [specMatchAll] at h
     obtain ⟨hd, hin⟩ := hD d (List.mem_cons_self)
     have himpl : filterApplies f d = Spec.specMatches f d :=
       MongoModel.Props.C01.matches_eq_spec_partial f d hin
     cases hs : Spec.specMatches f d with
     | error e => simp [hs] at h
     | ok b =>
-      cases hr : specMatch f ds with
+      cases hr : specMatchAll f ds with
       | none => simp [hs, hr] at h
       | some r =>
         simp only [hs, hr, Option.some.injEq] at h
-        have ih := match_eq_spec f hf ds r (fun x hx => hD x (List.mem_cons_of_mem _ hx)) hr
-        simp only [matchStage, hf] at ih ⊢
+        have ih := matchAll_eq_spec f hf ds r (fun x hx => hD x (List.mem_cons_of_mem _ hx)) hr
+        simp only [hf] at ih ⊢
         simp only [filterR, hd, himpl, hs, ih, h]
+
+theorem match_eq_spec (f : Val) (hf : patch f = f) (docs s : List Val)
+    (hE : docs = [] → Spec.inD f (.doc []) = true)
+    (hD : ∀ d ∈ docs, patch d = d ∧ Spec.inD f d = true) (h : specMatch f docs = some s) :
+    matchStage f docs = .ok s := by
+  cases docs with
+  | nil =>
+    have himpl : filterApplies f (.doc []) = Spec.specMatches f (.doc []) :=
+      MongoModel.Props.C01.matches_eq_spec_partial f (.doc []) (hE rfl)
+    simp only [specMatch] at h
+    simp only [matchStage, hf, himpl]
+    cases hs : Spec.specMatches f (.doc []) with
+    | error e => simp [hs] at h
+    | ok b => simp only [hs, Option.some.injEq] at h; subst h; rfl
+  | cons d ds => exact matchAll_eq_spec f hf (d :: ds) s hD h
 
 /-! ### `$sort` -/
 
@@ -356,13 +371,17 @@ theorem stage_eq_spec (db : Db) (op : String) (opts : Val) (docs s : List Val)
   · subst h1
     simp only [stageReasons, if_true, List.append_eq_nil_iff, flatMap_nil_iff', tag_nil] at hD
     simp only [specStage, if_true] at hs
-    obtain ⟨hf, hdocs⟩ := hD
+    obtain ⟨⟨hf, hE⟩, hdocs⟩ := hD
     have hf' : normalV opts = true := by
       by_cases h : normalV opts = true
       · exact h
       · simp [h] at hf
     show matchStage opts docs = .ok s
-    refine match_eq_spec opts (normalV_patch opts hf') docs s ?_ hs
+    refine match_eq_spec opts (normalV_patch opts hf') docs s ?_ ?_ hs
+    · intro he
+      subst he
+      simp only [List.isEmpty_nil, if_true, tag_nil] at hE
+      simp [Spec.inD, hE]
     intro d hd
     obtain ⟨hn, hr⟩ := hdocs d hd
     have hn' : normalV d = true := by
